@@ -897,7 +897,7 @@ impl Worterbuch {
         match self.store.delete(&path)? {
             Some((value, ls_subscribers)) => {
                 self.persistent_storage
-                    .delete_value(&key)
+                    .delete_value(&key, client_id)
                     .await
                     .map_err(|e| {
                         WorterbuchError::IoError(
@@ -941,7 +941,7 @@ impl Worterbuch {
 
         for kvp in &deleted {
             self.persistent_storage
-                .delete_value(&kvp.key)
+                .delete_value(&kvp.key, client_id)
                 .await
                 .map_err(|e| {
                     WorterbuchError::IoError(
